@@ -11,7 +11,7 @@ RULE = ("Hypothesis builds a model (cell, one of the 230 symbols with random bla
         "the full table, coordinates, adp kind in {Uiso,Uani,Biso,Bani} per atom or absent for the file, optional esd suffix on "
         "any number, optional occupancy column, optional multiplicity column under either spelling, optional atom-type loop "
         "with/without dispersion columns, optional extra data_global block) and serialises it with a small CIF writer; PDB "
-        "files with CRYST1, SCALE1-3 (6 decimals), ATOM/HETATM fixed columns, orthogonal coordinates, symbols in PDB style incl. "
+        "files (cells 2.5-600 A, oblique angle 0.01-30 deg from 90) with CRYST1, SCALE1-3 (6 decimals), ATOM/HETATM fixed columns, orthogonal coordinates, symbols in PDB style incl. "
         "monoclinic '1' place-holders and the symbols in which '1' is not a place-holder (P 1, P 3 1 2, P 3 2 1, P 31 1 2, ...). "
         "Oracle: the generating model evaluated on the numbers as printed. Non-trivial = CIF with esds and a non-Uiso adp kind, "
         "or PDB with a non-orthogonal cell")
